@@ -62,10 +62,13 @@ def variants(prop, case):
         return [{"how": hw, "via": "from_array", "share": True}, {"how": hw, "via": RLV[1 + (h // 4) % 7]}]
     if op == "rl_concat":
         return [{"via": "from_array"}, {"via": RLV[1 + (h // 4) % 7]}]
+    OV = ["rev", "tail", "perm", "mask"]
     if op == "rl2_getitem":
-        return [{"tuple1": bool(h & 1)}]
+        return [{"tuple1": bool(h & 1)}, {"tuple1": bool(h & 1), "objvia": OV[(h // 2) % 4]}]
     if op == "rl2_func":
-        return [{"how": ["method", "np"][h % 2]}]
+        return [{"how": ["method", "np"][h % 2]}, {"how": ["method", "np"][h % 2], "objvia": OV[(h // 2) % 4]}]
+    if op in ("rl2_ufunc", "rl2_concat"):
+        return [{}, {"objvia": OV[(h // 2) % 4]}]
     return [{}]
 
 
